@@ -24,6 +24,9 @@ RULE = (
     "operation produced a result that differs from the receiver."
 )
 ASSUMPTIONS = [
+    "insertEntry(collisionMode replace|merge, collisionReportingMode='error'): 'error' is outside the documented values of that "
+    "parameter (silence|warning) and outside the statement's failure list (collision in error *mode*); the all-or-nothing clause is "
+    "not asserted for it (the tier is still checked for well-formedness by C05)",
     "aliasing between a result and its receiver (shared entry objects) is not a violation by itself: the statement is about the call",
 ]
 REQUIRED_CLASSES = ["args:unsorted_argument", "tier_history:mutator_failed", "tg_ops:mutator_failed", "save_fail:failed_with_existing_file",
@@ -48,6 +51,12 @@ def run_tier_history(case):
                 continue
             if r.mutator and t is r.receiver and not failed:
                 continue  # the one allowed change
+            if r.mutator and t is r.receiver and failed and op["op"] == "insert_entry" and op.get("report") == "error" \
+                    and op.get("mode") in ("replace", "merge"):
+                # collisionReportingMode='error' is not a documented value (Literal['silence','warning']); the library
+                # accepts it and then reports the collision - by raising - after the replacement was made
+                classes.add("undocumented_error_report_after_edit")
+                continue
             if r.mutator and t is r.receiver and failed:
                 raise Violation(f"not-atomic:{op['op']}", f"{what}: raised {type(r.exc).__name__} but the tier changed from {b} to {after}")
             role = "receiver" if t is r.receiver else "other tier"
@@ -72,8 +81,12 @@ def tg_op_cases(draw):
     spec = draw(gen.textgrid(style=style, max_tiers=3, label=gen.ABE))
     if draw(st.integers(0, 3)) == 0:
         # a textgrid that declares a longer span than its tiers have (a tier added in 'silence' mode does not shrink it)
-        spec = draw(gen.textgrid(style=style, max_tiers=draw(st.sampled_from([1, 2])), label=gen.ABE, clean=False))
+        spec = draw(gen.textgrid(style=style, max_tiers=draw(st.sampled_from([1, 2, 3])), label=gen.ABE, clean=False))
         spec["maxT"] = spec["maxT"] + 1.5
+        for t in spec["tiers"][1:]:
+            if draw(st.integers(0, 2)) == 0:
+                t["entries"] = []  # entry-less tiers with a span of their own
+                t["maxT"] = t["maxT"] + draw(st.sampled_from([0.0, 1.0]))
     elif draw(st.integers(0, 4)) == 0:
         # one tier ends one unit in the last place before the textgrid does (0.3 in a textgrid ending at 0.1 + 0.2)
         t = spec["tiers"][draw(st.integers(0, len(spec["tiers"]) - 1))]
@@ -85,12 +98,12 @@ def tg_op_cases(draw):
     ts = sorted({t for tr in spec["tiers"] for e in tr["entries"] for t in e[:-1]} | {spec["minT"], spec["maxT"]})
     pick = st.sampled_from(ts + [(x + y) / 2 for x, y in zip(ts, ts[1:])] + [spec["maxT"] + 1.0])
     kind = draw(st.sampled_from(["crop", "erase", "insert_space", "edit", "append", "merge", "new", "validate", "save_str",
-                                 "queries", "add", "add", "remove", "rename", "rename", "replace", "replace",
+                                 "queries", "add", "add", "readd", "remove", "rename", "rename", "replace", "replace",
                                  "tier_insert", "tier_insert", "tier_insert", "tier_delete"]))
     if any(0 < spec["maxT"] - t["maxT"] < 1e-9 for t in spec["tiers"]) and draw(st.booleans()):
         kind = draw(st.sampled_from(["validate", "save_str", "queries"]))  # pure queries on a textgrid validate() complains about
     elif spec["maxT"] > max(t["maxT"] for t in spec["tiers"]) and draw(st.booleans()):
-        kind = draw(st.sampled_from(["replace", "rename", "add", "replace", "remove", "replace"]))  # the textgrid's own span is at stake here
+        kind = draw(st.sampled_from(["replace", "rename", "add", "replace", "remove", "replace", "merge", "append"]))  # the textgrid's own span is at stake here
     op = {"kind": kind}
     anyname = st.sampled_from(names + ["zz"])
     if kind in ("crop", "erase"):
@@ -109,6 +122,10 @@ def tg_op_cases(draw):
     elif kind == "add":
         op.update(name=draw(anyname), index=draw(st.one_of(st.none(), st.integers(-2, 5))),
                   span=draw(st.sampled_from([[spec["minT"], spec["maxT"]], [spec["minT"], spec["maxT"] + 1.0], [0.0, spec["maxT"] + 2.0]])),
+                  mode=draw(st.sampled_from(["silence", "warning", "error", "error", "bogus"])))
+    elif kind == "readd":
+        # the tier object that is already in the textgrid is added again, possibly after it grew beyond the textgrid
+        op.update(name=draw(st.sampled_from(names)), index=draw(st.one_of(st.none(), st.integers(-2, 5))), widen=draw(st.booleans()),
                   mode=draw(st.sampled_from(["silence", "warning", "error", "error", "bogus"])))
     elif kind == "remove":
         op.update(name=draw(anyname))
@@ -133,7 +150,7 @@ def run_tg_op(case):
     other = mk_tg(case["other"])
     kind = op["kind"]
     before, obefore = snap_tg(tg), snap_tg(other)
-    mutator = kind in ("add", "remove", "rename", "replace", "tier_insert", "tier_delete")
+    mutator = kind in ("add", "readd", "remove", "rename", "replace", "tier_insert", "tier_delete")
     new_tier = None
     classes = {kind}
     if any(0 < spec["maxT"] - t["maxT"] < 1e-9 for t in spec["tiers"]):
@@ -181,6 +198,13 @@ def run_tg_op(case):
             elif kind == "add":
                 new_tier = mk_new(op["name"], op["span"])
                 tg.addTier(new_tier, op["index"], op["mode"])
+            elif kind == "readd":
+                t = tg.getTier(op["name"])
+                if op["widen"]:
+                    far = tg.maxTimestamp + 1.0
+                    t.insertEntry((far, far + 1.0, "w") if isinstance(t, p.IntervalTier) else (far, "w"), "error", "silence")
+                before = snap_tg(tg)
+                tg.addTier(t, op["index"], op["mode"])
             elif kind == "remove":
                 tg.removeTier(op["name"])
             elif kind == "rename":
